@@ -181,6 +181,11 @@ private:
         bool suppressed = false;
 
         if (mSuppressions.nomsg.isSuppressed(errorMessage, mUseGlobalSuppressions)) {
+            // a worker (thread/process executor) only consults the local suppressions and drops the
+            // finding here, so Executor::hasToLog() never sees it: let the global suppressions see it
+            // as well, otherwise a global suppression matching this finding is reported as unmatched
+            if (!mUseGlobalSuppressions)
+                (void)mSuppressions.nomsg.isSuppressed(errorMessage, true);
             // Safety: Report critical errors to ErrorLogger
             if (mSettings.safety && ErrorLogger::isCriticalErrorId(msg.id)) {
                 mExitCode = 1;
